@@ -6,7 +6,7 @@ PROPS = {
     "C02": dict(machine="solver", level="fault_enumeration",
                 quick=dict(runs=80000, cap=60, selftest=200),
                 thorough=dict(runs=800000, cap=900, selftest=2000)),
-    "C09": dict(machine="unitscope", level="fault_enumeration",
+    "C09": dict(machine="c09", level="fault_enumeration",
                 quick=dict(runs=10000, cap=60, selftest=150),
                 thorough=dict(runs=200000, cap=900, selftest=1500)),
     "C07": dict(machine="quantity", level="exploration",
@@ -37,6 +37,9 @@ def machine(name):
     if name == "unitscope":
         from .m_unitscope import UnitScopeMachine
         return UnitScopeMachine
+    if name == "c09":
+        from .m_c09 import C09Machine
+        return C09Machine
     if name == "quantity":
         from .m_quantity import QuantityMachine
         return QuantityMachine
